@@ -764,5 +764,363 @@ theorem allocEnd_ok {c U} (h : Inv c U) (e : RunEntry) (he : e ∈ c.runOn) :
         · subst e; simp only [if_true] at h2 h3 ⊢; omega
         · simp only [e, if_false] at h2 h3 ⊢; omega
 
+/-! ### the operation alphabet -/
+
+theorem ingestBegin_ok {c U} (h : Inv c U) (e : RunEntry) (he : e ∈ c.pending) :
+    Inv (c.allocBegin e.task e.mach e.obs true).1 U ∧
+    (c.allocBegin e.task e.mach e.obs true).1.machines = c.machines := by
+  have hi := h.pendIng e he
+  have hfr := h.pendFresh e he
+  obtain ⟨t, m, obs, ing⟩ := e
+  simp only at hi hfr ⊢
+  subst hi
+  have hmi : m ∈ c.ingest := by
+    have h1 := h.ingm m
+    have h2 : 0 < (c.pending.map (·.mach)).count m :=
+      count_pos_of_mem (List.mem_map_of_mem (f := (·.mach)) he)
+    exact List.count_pos_iff.mp (by omega)
+  unfold allocBegin
+  simp only [hfr.1, if_false, if_true, hmi, decide_true, Bool.not_true, Bool.false_eq_true]
+  exact ⟨inv_beginIngest h t m obs he, by trivial⟩
+
+theorem moveToIngest_noerr (c : Cluster) (obs : Oid) (pairs : List (Mid × Tid))
+    (hsub : ∀ p ∈ pairs, p.1 ∈ c.available) (hnd : (pairs.map (·.1)).Nodup) :
+    (moveToIngest c obs pairs).2 = none := by
+  induction pairs generalizing c with
+  | nil => rfl
+  | cons p rest ih =>
+    obtain ⟨m, t⟩ := p
+    have hm : m ∈ c.available := hsub (m, t) (by simp)
+    unfold moveToIngest
+    simp only [hm, if_true]
+    simp only [List.map_cons, List.nodup_cons] at hnd
+    apply ih _ _ hnd.2
+    intro p hp
+    have : p.1 ≠ m := fun e => hnd.1 (e ▸ List.mem_map_of_mem (f := (·.1)) hp)
+    exact (List.mem_erase_of_ne this).mpr (hsub p (List.mem_cons_of_mem _ hp))
+
+theorem provisionIngest_refused {c U} (h : Inv c U) (d : Nat) (o : Oid) (e : Err)
+    (he : (c.provisionIngest d o).2.1 = some e) : (c.provisionIngest d o).1 = c := by
+  unfold provisionIngest at he ⊢
+  by_cases hd : d > c.available.length
+  · simp only [hd, if_true]
+  · simp only [hd, if_false] at he ⊢
+    generalize hp : ((c.available.take d).zipIdx.map (fun (x : Mid × Nat) => (x.1, Tid.ingest o x.2)))
+      = pairs at he ⊢
+    have hfst : pairs.map (·.1) = c.available.take d := by
+      subst hp; rw [List.map_map]; exact List.zipIdx_map_fst 0 _
+    have hsub : ∀ p ∈ pairs, p.1 ∈ c.available := by
+      intro p hp'
+      have : p.1 ∈ pairs.map (·.1) := List.mem_map_of_mem hp'
+      rw [hfst] at this
+      exact List.mem_of_mem_take this
+    have hnd : (pairs.map (·.1)).Nodup := by
+      rw [hfst]; exact (List.take_sublist d c.available).nodup h.avail_nodup
+    have := moveToIngest_noerr { c with ingestStatus := true, ingestDemand := d } o pairs hsub hnd
+    rw [this] at he
+    simp at he
+
+/-- freshness of one operation with respect to the ids used so far -/
+def OpFresh (U : List Tid) : ClOp → Prop
+  | .alloc t _ _ => t ∉ U ∧ t.isIngest = false
+  | .provIngest _ o => ∀ i, Tid.ingest o i ∉ U
+  | _ => True
+
+theorem applyOp_ok {c U} (h : Inv c U) (op : ClOp) (hf : OpFresh U op) :
+    (∃ U', Inv (c.applyOp op).1 U' ∧
+      ∀ t ∈ U', t ∈ U ∨ t ∈ opTids op ∨ ∃ o ∈ opIngestObs op, ∃ i, t = Tid.ingest o i) ∧
+    (c.applyOp op).1.machines = c.machines := by
+  cases op with
+  | provBatch s o =>
+    have := provisionBatch_ok h s o
+    exact ⟨⟨U, this.1, fun t ht => Or.inl ht⟩, this.2.1⟩
+  | relBatch o =>
+    have := releaseBatch_ok h o
+    exact ⟨⟨U, this.1, fun t ht => Or.inl ht⟩, this.2⟩
+  | provIngest d o =>
+    obtain ⟨⟨U', h1, h2⟩, h3, _⟩ := provisionIngest_ok h d o hf
+    refine ⟨⟨U', h1, ?_⟩, h3⟩
+    intro t ht
+    rcases h2 t ht with h2 | ⟨i, hi⟩
+    · exact Or.inl h2
+    · exact Or.inr (Or.inr ⟨o, by simp [opIngestObs], i, hi⟩)
+  | ingestBegin i =>
+    simp only [applyOp]
+    cases hp : c.pending[i]? with
+    | none => exact ⟨⟨U, h, fun t ht => Or.inl ht⟩, rfl⟩
+    | some e =>
+      have := ingestBegin_ok h e (List.mem_of_getElem? hp)
+      exact ⟨⟨U, this.1, fun t ht => Or.inl ht⟩, this.2⟩
+  | alloc t m obs =>
+    have := allocBegin_task_ok h t m obs hf.1 hf.2
+    refine ⟨⟨t :: U, this.1, ?_⟩, this.2⟩
+    intro t' ht'
+    simp only [List.mem_cons] at ht'
+    rcases ht' with ht' | ht'
+    · exact Or.inr (Or.inl (by simp [opTids, ht']))
+    · exact Or.inl ht'
+  | finish i =>
+    simp only [applyOp]
+    cases hp : c.runOn[i]? with
+    | none => exact ⟨⟨U, h, fun t ht => Or.inl ht⟩, rfl⟩
+    | some e =>
+      have := allocEnd_ok h e (List.mem_of_getElem? hp)
+      exact ⟨⟨U, this.2.1, fun t ht => Or.inl ht⟩, this.2.2⟩
+  | tick => exact ⟨⟨U, inv_tick h, fun t ht => Or.inl ht⟩, by simp only [applyOp, loopTick]; split <;> rfl⟩
+  | cleanupIngest => exact ⟨⟨U, inv_cleanup h, fun t ht => Or.inl ht⟩, rfl⟩
+
+theorem applyOp_refused {c U} (h : Inv c U) (op : ClOp) (e : Err)
+    (he : (c.applyOp op).2 = some e) : (c.applyOp op).1 = c := by
+  cases op with
+  | provBatch s o => exact (provisionBatch_ok h s o).2.2 e he
+  | relBatch o => simp [applyOp] at he
+  | provIngest d o => exact provisionIngest_refused h d o e he
+  | ingestBegin i =>
+    simp only [applyOp] at he ⊢
+    cases hp : c.pending[i]? with
+    | none => rfl
+    | some x =>
+      simp only [hp] at he ⊢
+      exact allocBegin_err_unchanged c _ _ _ _ e he
+  | alloc t m obs => exact allocBegin_err_unchanged c _ _ _ _ e he
+  | finish i =>
+    simp only [applyOp] at he ⊢
+    cases hp : c.runOn[i]? with
+    | none => rfl
+    | some x =>
+      simp only [hp] at he ⊢
+      have := (allocEnd_ok h x (List.mem_of_getElem? hp)).1
+      rw [this] at he
+      simp at he
+  | tick => simp [applyOp] at he
+  | cleanupIngest => simp [applyOp] at he
+
+/-! ### histories -/
+
+def FreshFrom (U : List Tid) (ops : List ClOp) : Prop :=
+  FreshHist ops ∧ (∀ t ∈ ops.flatMap opTids, t ∉ U) ∧
+  (∀ o ∈ ops.flatMap opIngestObs, ∀ i, Tid.ingest o i ∉ U)
+
+theorem run_cons (c : Cluster) (op : ClOp) (ops : List ClOp) :
+    c.run (op :: ops) = (c.applyOp op).1.run ops := rfl
+
+theorem FreshFrom.head {U op ops} (h : FreshFrom U (op :: ops)) : OpFresh U op := by
+  obtain ⟨⟨_, h2, _⟩, h4, h5⟩ := h
+  cases op with
+  | alloc t m obs =>
+    exact ⟨h4 t (by simp [opTids]), h2 t (by simp [opTids])⟩
+  | provIngest d o =>
+    exact h5 o (by simp [opIngestObs])
+  | _ => trivial
+
+theorem FreshFrom.tail {U U' op ops} (h : FreshFrom U (op :: ops))
+    (hU' : ∀ t ∈ U', t ∈ U ∨ t ∈ opTids op ∨ ∃ o ∈ opIngestObs op, ∃ i, t = Tid.ingest o i) :
+    FreshFrom U' ops := by
+  obtain ⟨⟨h1, h2, h3⟩, h4, h5⟩ := h
+  simp only [List.flatMap_cons, List.nodup_append, List.mem_append] at h1 h2 h3 h4 h5
+  refine ⟨⟨h1.2.1, fun t ht => h2 t (Or.inr ht), h3.2.1⟩, ?_, ?_⟩
+  · intro t ht hu
+    rcases hU' t hu with hu | hu | ⟨o, _, i, hi⟩
+    · exact h4 t (Or.inr ht) hu
+    · exact h1.2.2 t hu t ht rfl
+    · have := h2 t (Or.inr ht)
+      rw [hi] at this
+      simp [Tid.isIngest] at this
+  · intro o ho i hu
+    rcases hU' _ hu with hu | hu | ⟨o', ho', i', hi⟩
+    · exact h5 o (Or.inr ho) i hu
+    · have := h2 _ (Or.inl hu)
+      simp [Tid.isIngest] at this
+    · injection hi with e1 e2
+      subst e1
+      exact h3.2.2 o ho' o ho rfl
+
+theorem run_inv_gen (ops : List ClOp) : ∀ (c : Cluster) (U : List Tid), Inv c U → FreshFrom U ops →
+    ∃ U', Inv (c.run ops) U' ∧ (c.run ops).machines = c.machines := by
+  induction ops with
+  | nil => intro c U h _; exact ⟨U, h, rfl⟩
+  | cons op ops ih =>
+    intro c U h hf
+    obtain ⟨⟨U', h1, h2⟩, h3⟩ := applyOp_ok h op hf.head
+    obtain ⟨U'', i1, i2⟩ := ih _ U' h1 (hf.tail h2)
+    rw [run_cons]
+    exact ⟨U'', i1, i2.trans h3⟩
+
+theorem run_inv' (ms : List Mid) (hms : ms.Nodup) (ops : List ClOp) (hf : FreshHist ops) :
+    ∃ U, Inv ((init ms).run ops) U ∧ ((init ms).run ops).machines = ms :=
+  run_inv_gen ops (init ms) [] (inv_init ms hms) ⟨hf, by simp, by simp⟩
+
+theorem run_inv (ms : List Mid) (hms : ms.Nodup) (ops : List ClOp) (hf : FreshHist ops) :
+    ∃ U, Inv ((init ms).run ops) U := by
+  obtain ⟨U, h, _⟩ := run_inv' ms hms ops hf
+  exact ⟨U, h⟩
+
+/-! ### consequences of the invariant -/
+
+theorem Inv.perm {c U} (h : Inv c U) :
+    (c.available ++ c.ingest ++ c.occupied ++ c.idleAll).Perm c.machines := by
+  rw [List.perm_iff_count]
+  intro m
+  have := h.part m
+  simp only [List.count_append]
+  omega
+
+theorem Inv.runOn_count {c U} (h : Inv c U) (m : Mid) :
+    (c.runOn.map (·.mach)).count m + (c.pending.map (·.mach)).count m
+      = c.occupied.count m + c.ingest.count m := by
+  have h1 := h.occ m
+  have h2 := h.ingm m
+  have h3 := count_map_split (·.mach) (fun e => e.ing == true) c.runOn m
+  have h4 : (c.runOn.filter (fun x => !(x.ing == true))) = c.runOn.filter (fun e => e.ing == false) := by
+    apply List.filter_congr
+    intro x _
+    cases x.ing <;> rfl
+  simp only [runMachines] at h1 h2
+  rw [h4] at h3
+  omega
+
+theorem run_partition (ms : List Mid) (hms : ms.Nodup) (ops : List ClOp) (hf : FreshHist ops) :
+    let c := (init ms).run ops
+    (c.available ++ c.ingest ++ c.occupied ++ c.idleAll).Perm ms := by
+  intro c
+  obtain ⟨U, h, hm⟩ : ∃ U, Inv c U ∧ c.machines = ms := run_inv' ms hms ops hf
+  clear_value c
+  have := h.perm
+  rw [hm] at this
+  exact this
+
+theorem run_exactly_one (ms : List Mid) (hms : ms.Nodup) (ops : List ClOp) (hf : FreshHist ops)
+    (m : Mid) (hm : m ∈ ms) :
+    let c := (init ms).run ops
+    c.available.count m + c.ingest.count m + c.occupied.count m + c.idleAll.count m = 1 := by
+  intro c
+  obtain ⟨U, h, hmm⟩ : ∃ U, Inv c U ∧ c.machines = ms := run_inv' ms hms ops hf
+  clear_value c
+  have h1 := h.part m
+  rw [hmm] at h1
+  have h2 := List.nodup_iff_count.mp hms m
+  have h3 := count_pos_of_mem hm
+  show c.available.count m + c.ingest.count m + c.occupied.count m + c.idleAll.count m = 1
+  omega
+
+theorem run_one_owner (ms : List Mid) (hms : ms.Nodup) (ops : List ClOp) (hf : FreshHist ops)
+    (m : Mid) (o₁ o₂ : Oid) :
+    let c := (init ms).run ops
+    m ∈ c.idleOf (some o₁) → m ∈ c.idleOf (some o₂) → o₁ = o₂ := by
+  intro c
+  obtain ⟨U, h, hmm⟩ : ∃ U, Inv c U ∧ c.machines = ms := run_inv' ms hms ops hf
+  clear_value c
+  intro h1 h2
+  simp only [idleOf] at h1 h2
+  cases hg1 : dictGet c.idle o₁ with
+  | none => simp [hg1] at h1
+  | some l₁ =>
+    cases hg2 : dictGet c.idle o₂ with
+    | none => simp [hg2] at h2
+    | some l₂ =>
+      simp only [hg1, hg2, Option.getD_some] at h1 h2
+      apply Classical.byContradiction
+      intro hne
+      have h3 := count_flatten_two c.idle o₁ o₂ l₁ l₂ m hg1 hg2 hne
+      have h4 := h.part m
+      have h5 := List.nodup_iff_count.mp h.nodupM m
+      have h6 := count_pos_of_mem h1
+      have h7 := count_pos_of_mem h2
+      simp only [idleAll] at h4
+      omega
+
+theorem run_refused_unchanged (ms : List Mid) (hms : ms.Nodup) (ops : List ClOp)
+    (hf : FreshHist ops) (op : ClOp) (e : Err) :
+    let c := (init ms).run ops
+    (c.applyOp op).2 = some e → (c.applyOp op).1 = c := by
+  intro c
+  obtain ⟨U, h, _⟩ : ∃ U, Inv c U ∧ c.machines = ms := run_inv' ms hms ops hf
+  clear_value c
+  exact applyOp_refused h op e
+
+theorem run_counts (ms : List Mid) (hms : ms.Nodup) (ops : List ClOp) (hf : FreshHist ops) :
+    let c := (init ms).run ops
+    c.uRunning = c.running.length ∧
+    c.uAvail = (ms.length : Int) - c.running.length ∧
+    c.uFinished = (c.finished.filter (·.2)).length ∧
+    c.uIngest = (c.running.filter Tid.isIngest).length ∧
+    (c.pending = [] → c.uAvail = (c.available.length : Int) + c.idleAll.length) := by
+  intro c
+  obtain ⟨U, h, hmm⟩ : ∃ U, Inv c U ∧ c.machines = ms := run_inv' ms hms ops hf
+  clear_value c
+  have hav := h.cntAvail
+  rw [hmm] at hav
+  refine ⟨h.cntRunning, hav, h.cntFinished, ?_, ?_⟩
+  · rw [h.cntIngest, ← h.runOnTasks, List.filter_map, List.length_map]
+    simp only [runMachines, List.length_map]
+    congr 2
+    apply List.filter_congr
+    intro x hx
+    have := h.ingRun x hx
+    simp only [Function.comp]
+    rw [← this]
+    cases x.ing <;> rfl
+  · intro hp
+    have h1 := h.perm.length_eq
+    have h2 := length_eq_of_count_eq h.occ
+    have h3 : (c.runMachines true).length = c.ingest.length := by
+      apply length_eq_of_count_eq
+      intro m
+      have := h.ingm m
+      rw [hp] at this
+      simpa using this
+    have h4 := length_filter_bool_split (·.ing) c.runOn
+    have h5 : c.running.length = c.runOn.length := by rw [← h.runOnTasks, List.length_map]
+    simp only [runMachines, List.length_map] at h2 h3
+    simp only [List.length_append] at h1
+    rw [hmm] at h1
+    omega
+
+theorem run_quiescent (ms : List Mid) (hms : ms.Nodup) (ops : List ClOp) (hf : FreshHist ops) :
+    let c := (init ms).run ops
+    c.running = [] → c.pending = [] → c.idle = [] → c.available.Perm ms := by
+  intro c
+  obtain ⟨U, h, hmm⟩ : ∃ U, Inv c U ∧ c.machines = ms := run_inv' ms hms ops hf
+  clear_value c
+  intro hr hp hi
+  have hro : c.runOn = [] := by
+    have := h.runOnTasks
+    rw [hr] at this
+    exact List.map_eq_nil_iff.mp this
+  rw [List.perm_iff_count]
+  intro m
+  have h1 := h.part m
+  have h2 := h.occ m
+  have h3 := h.ingm m
+  rw [hmm] at h1
+  simp only [runMachines, hro, hp, idleAll, hi, List.filter_nil, List.map_nil, List.count_nil,
+    List.flatten_nil] at h1 h2 h3
+  omega
+
+theorem run_c01 (ms : List Mid) (hms : ms.Nodup) (ops : List ClOp) (hf : FreshHist ops) :
+    let c := (init ms).run ops
+    (c.runOn.map (·.mach)).Nodup ∧
+    ∀ m, (m ∈ c.available ∨ m ∈ c.idleAll) → m ∉ c.runOn.map (·.mach) := by
+  intro c
+  obtain ⟨U, h, hmm⟩ : ∃ U, Inv c U ∧ c.machines = ms := run_inv' ms hms ops hf
+  clear_value c
+  refine ⟨?_, ?_⟩
+  · rw [List.nodup_iff_count]
+    intro m
+    have h1 := h.part m
+    have h2 := h.runOn_count m
+    have h3 := List.nodup_iff_count.mp h.nodupM m
+    omega
+  · intro m hm hr
+    have h1 := h.part m
+    have h2 := h.runOn_count m
+    have h3 := List.nodup_iff_count.mp h.nodupM m
+    have h4 := count_pos_of_mem hr
+    have h5 : 0 < c.available.count m + c.idleAll.count m := by
+      rcases hm with hm | hm
+      · have := count_pos_of_mem hm; omega
+      · have := count_pos_of_mem hm; omega
+    omega
+
 end Cluster
 end Topsim
